@@ -44,6 +44,11 @@ def mkres(case, key=None, nt=False, classes=(), fails=(), info=None):
 
 # ----------------------------------------------------------------------------- worker entry points
 
+def _inconclusive():
+    from . import drive
+    return drive.Inconclusive
+
+
 def _eval_batch(args):
     modname, cases = args
     mod = importlib.import_module(modname)
@@ -51,6 +56,8 @@ def _eval_batch(args):
     for c in cases:
         try:
             out.append(mod.eval_case(c))
+        except _inconclusive():
+            out.append(mkres(c, nt=False, classes=['wall-clock-budget-hit-inconclusive']))
         except Exception:
             out.append({'case': c, 'key': case_hash(c), 'nt': False, 'classes': ['harness-error'], 'fails': [], 'info': None, 'harness_error': traceback.format_exc()})
     return out
@@ -71,6 +78,8 @@ def _hyp_shard(args):
     def t(case):
         try:
             out.append(mod.eval_case(case))
+        except _inconclusive():
+            out.append(mkres(case, nt=False, classes=['wall-clock-budget-hit-inconclusive']))
         except Exception:
             out.append({'case': case, 'key': case_hash(case), 'nt': False, 'classes': ['harness-error'], 'fails': [], 'info': None, 'harness_error': traceback.format_exc()})
 
